@@ -109,8 +109,9 @@ def kf_defs(prop_id):
 def _limit(mem_gb):
     def f():
         os.setsid()
-        lim = int(mem_gb * (1 << 30))
-        resource.setrlimit(resource.RLIMIT_AS, (lim, lim))
+        if mem_gb:
+            lim = int(mem_gb * (1 << 30))
+            resource.setrlimit(resource.RLIMIT_AS, (lim, lim))
     return f
 
 
@@ -271,7 +272,7 @@ def native_replay(o, workdir, replay_file, tag='n'):
         return {'status': 'build-failed', 'log': err.decode(errors='replace')[-2000:]}
     env = dict(os.environ, VF_REPLAY=replay_file, ASAN_OPTIONS='detect_leaks=0:abort_on_error=0',
                UBSAN_OPTIONS='print_stacktrace=1')
-    rc, out, err, dt, to = run_cmd([exe], 60, 16, env=env)
+    rc, out, err, dt, to = run_cmd([exe], 60, None, env=env)      # no address-space limit: ASan reserves terabytes of shadow memory
     log = (out or b'').decode(errors='replace')[-1500:] + (err or b'').decode(errors='replace')[-3000:]
     if to:
         st = 'reproduced-timeout'
@@ -279,8 +280,10 @@ def native_replay(o, workdir, replay_file, tag='n'):
         st = 'assumption-not-met'
     elif rc == 0:
         st = 'not-reproduced'
-    else:
+    elif 'VF-ASSERT-FAILED' in log or 'ERROR: AddressSanitizer' in log or 'runtime error:' in log or rc in (-11, -6, -8, 139, 134, 136):
         st = 'reproduced'
+    else:
+        st = 'replay-error'      # the replay binary did not run properly: says nothing about the counterexample
     return {'status': st, 'rc': rc, 'log': log}
 
 
@@ -534,7 +537,7 @@ def write_evidence(prop_id, tier, seed, level, results, obls, explanation, trust
         json.dump(ev, f, indent=1, default=str)
 
 
-def replay_file(prop_id, path, obls):
+def replay_file(prop_id, path, obls, prepare=None):
     """bin/check <ID> --replay <file>: native run of the recorded counterexample"""
     name = None
     for line in open(path):
@@ -548,6 +551,8 @@ def replay_file(prop_id, path, obls):
     workdir = tempfile.mkdtemp(prefix='vf_replay_')
     try:
         gen_config(os.path.join(workdir, 'gen'))
+        if prepare:
+            prepare(workdir)
         defs = kf_defs(prop_id)
         o2 = dataclasses.replace(o, defs=list(o.defs) + [d for d in defs if d != '-D%s' % o.kf])
         nr = native_replay(o2, workdir, path)
